@@ -357,17 +357,28 @@ def operator_normalised(ctx, rule='svd-operator-normalised'):
             # where the scale comes from: the constructor initialises it from the magnitudes of the entries of the matrix
             ctors = [c for c in ctx.F.concrete() if c.record == fn.record and c.d.get('ctor')]
             okinit = False
+
+            def closure(g, root, depth=0, seen=None):
+                """nodes of the expression and of the bodies of the Spectra helpers it calls (depth <= 3)"""
+                seen = seen if seen is not None else set()
+                for y in g.walk(root):
+                    yield y
+                    if y['k'] == 'CallExpr' and depth < 3:
+                        h = ctx.F.resolve(y)
+                        if h is not None and h.mangled not in seen and h.qname.startswith('Spectra::'):
+                            seen.add(h.mangled)
+                            for z in closure(h, None, depth + 1, seen):
+                                yield z
             for c in ctors:
                 for i in c.inits:
                     if i['member'] in scale_fields and i['expr'] >= 0:
-                        for y in c.walk(i['expr']):
-                            if y['k'] == 'CallExpr':
-                                h = ctx.F.resolve(y)
-                                if h is not None and any(z['k'] == 'CallExpr' and z.get('callee') in ('abs', 'fabs') for z in h.walk()) and \
-                                        any(z['k'] == 'CallExpr' and z.get('callee') in ('max', 'fmax') for z in h.walk()):
-                                    okinit = True
-                            if y['k'] == 'CXXMemberCallExpr' and y.get('callee') == 'maxCoeff':
-                                okinit = True
+                        ys = list(closure(c, i['expr']))
+                        has_abs = any((z['k'] == 'CallExpr' and z.get('callee') in ('abs', 'fabs')) or
+                                      (z['k'] == 'CXXMemberCallExpr' and z.get('callee') in ('cwiseAbs', 'abs')) for z in ys)
+                        has_max = any((z['k'] == 'CallExpr' and z.get('callee') in ('max', 'fmax')) or
+                                      (z['k'] == 'CXXMemberCallExpr' and z.get('callee') == 'maxCoeff') for z in ys)
+                        if has_abs and has_max or any(z['k'] == 'CXXMemberCallExpr' and z.get('callee') == 'maxCoeff' for z in c.walk(i['expr'])):
+                            okinit = True
             if scale_fields and not okinit:
                 probs.append('the scale is not initialised from the largest magnitude of the entries')
             ctx.check(not probs, rule, '%s::perform_op' % cls.replace('Spectra::', ''), fn.qname,
@@ -381,6 +392,7 @@ def operator_normalised(ctx, rule='svd-operator-normalised'):
 def run(ctx):
     shape_predicates(ctx)
     operator_normalised(ctx)
+    hygiene.view_storage_scanned_with_its_layout(ctx)
     c06.svd_cache(ctx)
     clamps(ctx)
     hygiene.stored_ref_lifetime(ctx)
